@@ -16,6 +16,8 @@ use crate::schedx::{CaseInfo, Judgement};
 
 #[derive(Clone, Debug)]
 pub struct Case {
+    /// this opener's first file extension (the allocation that initialises a new file) fails with ENOSPC
+    pub init_fault: Option<usize>,
     /// one blocking lock request may be interrupted by a signal (EINTR) in each execution
     pub eintr: bool,
     pub openers: usize,
@@ -26,12 +28,14 @@ pub struct Case {
 pub fn cases(tier: Tier) -> Vec<Case> {
     let q = tier == Tier::Quick;
     vec![
-        Case { eintr: false, openers: 2, file_exists: true, bound: if q { 6 } else { 12 } },
-        Case { eintr: false, openers: 2, file_exists: false, bound: if q { 4 } else { 8 } },
-        Case { eintr: false, openers: 3, file_exists: true, bound: if q { 2 } else { 3 } },
-        Case { eintr: false, openers: 3, file_exists: false, bound: if q { 2 } else { 3 } },
-        Case { eintr: true, openers: 2, file_exists: true, bound: if q { 3 } else { 6 } },
-        Case { eintr: true, openers: 3, file_exists: false, bound: if q { 1 } else { 2 } },
+        Case { init_fault: None, eintr: false, openers: 2, file_exists: true, bound: if q { 6 } else { 12 } },
+        Case { init_fault: None, eintr: false, openers: 2, file_exists: false, bound: if q { 4 } else { 8 } },
+        Case { init_fault: None, eintr: false, openers: 3, file_exists: true, bound: if q { 2 } else { 3 } },
+        Case { init_fault: None, eintr: false, openers: 3, file_exists: false, bound: if q { 2 } else { 3 } },
+        Case { init_fault: None, eintr: true, openers: 2, file_exists: true, bound: if q { 3 } else { 6 } },
+        Case { init_fault: None, eintr: true, openers: 3, file_exists: false, bound: if q { 1 } else { 2 } },
+        Case { init_fault: Some(0), eintr: false, openers: 3, file_exists: false, bound: if q { 2 } else { 3 } },
+        Case { init_fault: Some(1), eintr: false, openers: 3, file_exists: false, bound: if q { 1 } else { 2 } },
     ]
 }
 
@@ -39,7 +43,7 @@ pub fn case_infos(tier: Tier) -> Vec<CaseInfo> {
     cases(tier)
         .iter()
         .map(|c| CaseInfo {
-            label: format!("{}openers-{}{}-c{}", c.openers, if c.file_exists { "existing" } else { "absent" }, if c.eintr { "-one-EINTR" } else { "" }, c.bound),
+            label: format!("{}openers-{}{}-c{}", c.openers, if c.file_exists { "existing" } else { "absent" }, if c.eintr { "-one-EINTR" } else if let Some(i) = c.init_fault { if i == 0 { "-initfail0" } else { "-initfail1" } } else { "" }, c.bound),
             describe: json!({"openers": c.openers, "file": if c.file_exists { "exists (empty database, closed)" } else { "does not exist yet" }, "opener_body": "open(path); inside += 1; commit own marker; read all markers; yield; inside -= 1; close", "preemption_bound": c.bound}),
         })
         .collect()
@@ -94,8 +98,34 @@ pub fn run_one(case: &Case, path: &str, prefix: &[u8], policy: RwPolicy) -> (Exe
         let obs = obs.clone();
         let cfg = cfg.clone();
         let path = path.to_string();
+        let init_fault = case.init_fault == Some(i);
         bodies.push(Box::new(move |ctx: &Ctx| {
-            let db = match real::guarded(|| cfg.open(&path)) {
+            if init_fault {
+                crate::iosim::with_plan(|p| {
+                    p.armed = true;
+                    p.calls = 0;
+                    p.call_kinds.clear();
+                    p.fault_fired = false;
+                    p.fault = Some(crate::iosim::Fault::nth(crate::iosim::Kind::Fallocate, 0, libc::ENOSPC));
+                });
+            }
+            let opened = real::guarded(|| cfg.open(&path));
+            let fired = init_fault
+                && crate::iosim::with_plan(|p| {
+                    p.armed = false;
+                    p.fault = None;
+                    p.fault_fired
+                })
+                .unwrap_or(false);
+            let db = match opened {
+                Ok(Err(jammdb::Error::Io(_))) if fired => {
+                    // the injected allocation failure is reported: a legitimate answer
+                    obs.lock().unwrap().interrupted.push(i);
+                    return;
+                }
+                other => other,
+            };
+            let db = match db {
                 Ok(Ok(db)) => db,
                 Ok(Err(jammdb::Error::Io(e))) if e.kind() == std::io::ErrorKind::Interrupted => {
                     // a signal interrupted the wait for the lock: reporting the error (and staying
@@ -185,7 +215,7 @@ pub fn run_one(case: &Case, path: &str, prefix: &[u8], policy: RwPolicy) -> (Exe
     let interrupted = o.interrupted.clone();
     if !interrupted.is_empty() {
         outcome.push_str(&format!("eintr{:?};", interrupted));
-        if !case.eintr {
+        if !case.eintr && case.init_fault.is_none() {
             js.push(Judgement { class: "open_failed".into(), detail: format!("openers {:?} got Interrupted although no signal was injected", interrupted) });
         }
     }
